@@ -69,9 +69,10 @@ theorem validate_complete (gates : List AGate) (numQubits : Nat) (qmap : List (S
   simp only [hq, hv, beq_self_eq_true]
 
 /-- step 3 of `compile`: `remove_identities` does not change the classical action -/
-theorem remove_identities_preserves (gs out : List AGate) (h : removeIdentitiesList gs = some out)
-    (hwf : ∀ g ∈ gs, g.wires.Nodup) (s : BState) : runClassical out s = runClassical gs s :=
-  removeIdentitiesList_sound gs out h hwf s
+theorem remove_identities_preserves (gs : List AGate)
+    (hwf : ∀ g ∈ gs, g.wires.Nodup) (s : BState) :
+    runClassical (removeIdentitiesList gs) s = runClassical gs s :=
+  removeIdentitiesList_sound gs hwf s
 
 /-- every X/CX/MCX gate on distinct wires is an involution on basis states -/
 theorem gate_involutive (g : AGate) (hn : g.wires.Nodup) (s : BState) :
